@@ -144,6 +144,51 @@ where
             }
             Ok(())
         });
+        // formatting is re-entrant and thread-safe: a sink that formats ANOTHER array while it is
+        // being handed a fragment (a logger that prefixes lines, a tee), and two threads formatting
+        // at once, must each see their own digits (a scratch buffer shared between calls would not)
+        st.check_case("C14", "hex.reentrant", feature, || format!("C14 hex.reentrant [{feature}] N={n} pattern={pat}"), n > 0, || {
+            struct Nest<'a, M: ArrayLength + Add<M>>
+            where
+                Sum<M, M>: ArrayLength,
+            {
+                out: String,
+                other: &'a GA<M>,
+                inner: Vec<String>,
+            }
+            impl<'a, M: ArrayLength + Add<M>> std::fmt::Write for Nest<'a, M>
+            where
+                Sum<M, M>: ArrayLength,
+            {
+                fn write_str(&mut self, frag: &str) -> std::fmt::Result {
+                    // format the other array first, then use the fragment we were handed
+                    self.inner.push(format!("{:X}", self.other));
+                    self.out.push_str(frag);
+                    Ok(())
+                }
+            }
+            let other: GA<N> = GA::<N>::generate(|i| 0xFF - (i % 251) as u8);
+            let other_u = reference(&other, true);
+            let mut sink = Nest { out: String::new(), other: &other, inner: Vec::new() };
+            write!(sink, "{:x}", arr).map_err(|e| format!("Panic: {e}"))?;
+            if sink.out != full_l {
+                return Err(format!("LowerMismatch: formatting into a sink that formats another array meanwhile: {}", first_diff(&sink.out, &full_l)));
+            }
+            if sink.inner.iter().any(|s| *s != other_u) {
+                return Err("UpperMismatch: the array formatted inside the sink came out wrong".into());
+            }
+            // two threads at once
+            let (a1, a2) = (arr.clone(), other.clone());
+            let (w1, w2) = (full_u.clone(), reference(&other, false));
+            let rounds = if n > 1024 { 40 } else { 8 };
+            let t1 = std::thread::spawn(move || (0..rounds).all(|_| format!("{:X}", a1) == w1));
+            let t2 = std::thread::spawn(move || (0..rounds).all(|_| format!("{:x}", a2) == w2));
+            let (o1, o2) = (t1.join().map_err(|_| "Panic: formatting thread panicked".to_string())?, t2.join().map_err(|_| "Panic: formatting thread panicked".to_string())?);
+            if !o1 || !o2 {
+                return Err("UpperMismatch: two threads formatting at the same time disturbed each other".into());
+            }
+            Ok(())
+        });
         let ps = precisions(n, &mut rng, args.thorough());
         for p in ps {
             st.check_case("C14", "hex.precision", feature, || format!("C14 hex.precision [{feature}] N={n} pattern={pat} p={p}"), n > 0, || {
